@@ -194,8 +194,6 @@ func VerifGetAttribute(obj interface{}, attr string) (interface{}, error) {
 	return ctx.getAttribute(obj, attr)
 }
 
-// VerifCurrentTemplate exposes the engine-wide "current template" name.
-func VerifCurrentTemplate(e *Engine) string { return e.currentTemplate }
 
 var _ = unsafe.Pointer(nil)
 
